@@ -57,10 +57,13 @@ class Ctx:
     def require(self, c):
         self.ex.assume(c)
 
-    def ensure(self, name, goal, props=None):
+    def ensure(self, name, goal, props=None, hyps=None):
+        """hyps: optional predicate selecting a SUBSET of the path condition (proving from fewer hypotheses is sound;
+        used to keep quantified context out of arithmetic lemmas)"""
         ex = self.ex
         goal = toz(goal)
-        ob = Obligation(name, ex.pc, goal, "ensures", self.unit.target or self.unit.name)
+        pc = ex.pc if hyps is None else [h for h in ex.pc if hyps(h)]
+        ob = Obligation(name, pc, goal, "ensures", self.unit.target or self.unit.name)
         ob.props = tuple(props) if props else tuple(self.unit.props)
         ob.probes = dict(self.probes)
         ex.obligations.append(ob)
@@ -217,7 +220,7 @@ def check_property(pid, units, tier="quick", seed=0, extra=None):
 
     # known findings must still reproduce (otherwise the entry is stale -> error, not silence)
     # (a finding whose obligation now proves is reported as a note; it never hides another violation)
-    replay_dir = os.path.join(VERIF, "replay", "out")
+    replay_dir = os.environ.get("VERIF_REPLAY_DIR") or os.path.join(VERIF, "replay", "out")
     os.makedirs(replay_dir, exist_ok=True)
     out_lines = []
     from . import replay as RP
@@ -263,8 +266,9 @@ def check_property(pid, units, tier="quick", seed=0, extra=None):
             "each function body is analysed sequentially (no interleaving inside a handler)"}),
         "wall_s": round(wall, 2), "violations": len(viol_lines),
     }
-    os.makedirs(os.path.join(VERIF, "evidence"), exist_ok=True)
-    json.dump(ev, open(os.path.join(VERIF, "evidence", f"{pid}.json"), "w"), indent=1, default=str)
+    evdir = os.environ.get("VERIF_EVIDENCE_DIR") or os.path.join(VERIF, "evidence")
+    os.makedirs(evdir, exist_ok=True)
+    json.dump(ev, open(os.path.join(evdir, f"{pid}.json"), "w"), indent=1, default=str)
 
     for l in out_lines:
         print(l)
